@@ -571,3 +571,12 @@ package store
 //@   ensures [C06] head-is-the-persisted-one: result == nil && !old(apSet(s.contiguousHead)) && apSet(s.contiguousHead) ==> old(dsHas)[headKey] && apVal(s.contiguousHead).Hash() == unjsonHash(old(dsVal)[headKey])
 //@   ensures [C06] tail-is-the-persisted-one: result == nil && !old(apSet(s.tailHeader)) && apSet(s.tailHeader) ==> old(dsHas)[tailKey] && apVal(s.tailHeader).Hash() == unjsonHash(old(dsVal)[tailKey])
 //@   ensures [C06] no-header-lost: forall k Key @ dsHas[k] :: k != headKey && k != tailKey ==> (dsHas[k] <==> old(dsHas)[k])
+
+// the wrapper OnDelete installs around every user handler: a panicking handler becomes an error (C14)
+//@ field store.(*Store).OnDelete$1.fn(ctx, height)
+//@   maypanic -- user code
+
+//@ func (*Store).OnDelete$1(ctx, height)
+//@   props C14
+//@   ghost herr error := result0 of call fn #0
+//@   ensures [C14] handler-error-returned: called(herr) && herr != nil ==> result != nil
